@@ -29,7 +29,7 @@ TraceInit ==
   LET e == Trace[1] IN
   /\ cfg = e.st.cfg /\ log = e.st.log /\ segs = e.st.segs /\ hw = e.st.hw
   /\ epochs = e.st.epochs /\ ro = e.st.ro /\ rd = e.st.rd
-  /\ cc = e.st.cc /\ now = e.st.now /\ pend = NoPend
+  /\ cc = e.st.cc /\ now = e.st.now /\ pend = NoPend /\ rr = [r \in RevReaders |-> NoRev]
   /\ obs = e.obs /\ rb = e.rb /\ rv = e.rv /\ tl = e.tl /\ win = e.win
   /\ l = 2
 
@@ -52,6 +52,7 @@ PropOther(e) ==
   CASE e.a = "Append" -> P_Append(e.args.recs)
     [] e.a = "SetHW" -> P_SetHW(e.args.h)
     [] e.a = "Drain" -> P_Drain(e.args.r)
+    [] e.a = "RevRead" -> P_RevRead(e.args.r, e.args.all)
     [] OTHER -> P_Same
 
 ImplOf(e) ==
@@ -62,10 +63,13 @@ ImplOf(e) ==
     [] e.a = "Clean" -> DoClean
     [] e.a = "CleanBegin" -> DoCleanBegin
     [] e.a = "CleanEnd" -> DoCleanEnd
+    [] e.a = "CleanFail" -> DoCleanFail(e.args.k)
     [] e.a = "Reopen" -> CReopen
     [] e.a = "NewReader" -> CNewReader(e.args.r, e.args.s, e.args.c)
     [] e.a = "Drain" -> CDrain(e.args.r)
-    [] OTHER -> UNCHANGED <<cfg, log, segs, hw, epochs, ro, rd, cc, now, pend>>
+    [] e.a = "NewRev" -> DoNewRev(e.args.r, e.args.s, e.args.c)
+    [] e.a = "RevRead" -> DoRevRead(e.args.r, e.args.all)
+    [] OTHER -> UNCHANGED <<cfg, log, segs, hw, epochs, ro, rd, cc, now, pend, rr>>
 
 \* ---- read-back (evaluated on the state of a line outside a pending clean)
 
@@ -126,6 +130,15 @@ TraceNext ==
      /\ Bind(e)
      /\ pend' = IF e.a = "Open" \/ e.a = "CleanEnd" THEN NoPend
                 ELSE IF e.a = "CleanBegin" /\ e.win THEN Snapshot ELSE pend
+     \* like `pend`, the state of the persistent reverse readers (which segment objects
+     \* of their list have been closed) is not observable: the specification keeps it
+     /\ rr' = CASE e.a = "Open" \/ e.a = "Reopen" -> [r \in RevReaders |-> NoRev]
+                [] e.a = "Clean" /\ e.obs.err = "" -> RevAfterClean(Snapshot)
+                [] e.a = "CleanBegin" /\ e.win -> RevAfterClean(Snapshot)
+                [] e.a = "CleanFail" -> RevAfterClean(Snapshot)
+                [] e.a = "NewRev" -> RevNewVal(e.args.r, e.args.s, e.args.c)
+                [] e.a = "RevRead" /\ rr[e.args.r].alive -> RevReadVal(e.args.r, e.args.all)
+                [] OTHER -> rr
      /\ IF e.a = "Open" THEN TRUE
         ELSE /\ IF IsClean(e) /\ ~Comparable(SnapOf(e))
                 THEN Fail("P", e, "C08_Unchanged:not-comparable")
@@ -139,6 +152,9 @@ TraceNext ==
                      /\ Chk(P_C09_LimitsHold(b), "P", e, "C09_LimitsHold")
                      /\ Chk(P_C09_Suffix(b), "P", e, "C09_Suffix")
                      /\ Chk(P_C09_Oldest, "P", e, "C09_Oldest")
+                ELSE IF e.a = "Clean"
+                THEN \* a clean without an injected fault (also the retry after a failed one) succeeds
+                     Fail("P", e, "CleanError")
                 ELSE Chk(PropOther(e), "P", e, "step")
              /\ IF IsClean(e) /\ ~Comparable(SnapOf(e)) THEN TRUE
                 ELSE Chk(ImplOf(e), "I", e, "step")
